@@ -1,4 +1,13 @@
-(* Proto/Fpa.v (draft): cmd/internal/playtak/fpa.go — the three first-player-advantage rules as state machines *)
+(* Fpa.v: cmd/internal/playtak/fpa.go — the three first-player-advantage rules as state machines,
+   in the driving order of Friendly.GetMove (friendly.go): validate the previous move with LegalMove,
+   then script with GetMove.  Model only; proofs are in FpaFacts*.v.
+
+   Repair switches (record `fixes`): each switch selects the code of one candidate repair of fpa.go
+   (notes/c20_fix_<class>.diff); all off = the code as pinned.
+     fx_ds  doublestack-black-illegal : DoubleStack.GetMove ply 3 uses adjacentExcept(.., whitePlace)
+     fx_cb  cairn-black-occupied      : Cairn.GetMove ply 3 falls back to freeReply when its square is taken
+     fx_cw  cairn-white-selfreject    : isCenterAdjacent with && for ||, and Cairn.GetMove ply 4 picks the
+                                        slide whose destination is centred and next to Black's stone *)
 From Coq Require Import NArith ZArith List Bool Lia.
 Require Import Board Move GameOver Tps Symmetry.
 Import ListNotations.
@@ -8,6 +17,10 @@ Notation res := Move.res.
 Notation Ok := Move.Ok. Notation Err := Move.Err. Notation Panic := Move.Panic.
 
 Inductive variant := Center | DoubleStack | Cairn.
+
+Record fixes := { fx_ds : bool; fx_cb : bool; fx_cw : bool }.
+Definition pinned := {| fx_ds := false; fx_cb := false; fx_cw := false |}.
+Definition repaired := {| fx_ds := true; fx_cb := true; fx_cw := true |}.
 
 (* remembered squares; Go keeps whole Moves but reads only X and Y *)
 Record fstate := { blackPlace : Z * Z; blackTmp : Z * Z; whitePlace : Z * Z; whiteTmp : Z * Z }.
@@ -23,19 +36,20 @@ Definition is_centered (p : position) (x y : Z) : bool :=
   if Z.rem (psize p) 2 =? 1 then (x =? mid) && (y =? mid)
   else ((x =? mid) || (x =? wrap8 (mid - 1))) && ((y =? mid) || (y =? wrap8 (mid - 1))).
 
-Definition is_center_adjacent (p : position) (x y : Z) : bool :=
+Definition is_center_adjacent (fx : fixes) (p : position) (x y : Z) : bool :=
   let mid := wrap8 (Z.quot (psize p) 2) in
+  let conn (a b : bool) := if fx_cw fx then a && b else a || b in       (* as pinned: `||` *)
   if Z.rem (psize p) 2 =? 1 then
     (((x =? wrap8 (mid - 1)) || (x =? wrap8 (mid + 1))) && (y =? mid)) || (((y =? wrap8 (mid - 1)) || (y =? wrap8 (mid + 1))) && (x =? mid))
-  else if ((wrap8 (mid - 1) <=? x) && (x <=? mid)) && ((wrap8 (mid - 2) <=? y) || (y <=? wrap8 (mid + 1))) then true
-  else if ((wrap8 (mid - 2) <=? x) && (x <=? wrap8 (mid + 1))) && ((wrap8 (mid - 1) <=? y) || (y <=? mid)) then true
+  else if ((wrap8 (mid - 1) <=? x) && (x <=? mid)) && conn (wrap8 (mid - 2) <=? y) (y <=? wrap8 (mid + 1)) then true
+  else if ((wrap8 (mid - 2) <=? x) && (x <=? wrap8 (mid + 1))) && conn (wrap8 (mid - 1) <=? y) (y <=? mid) then true
   else false.
 
 Definition abs8 (z : Z) : Z := if z <? 0 then wrap8 (- z) else z.
 Definition distance (x1 y1 x2 y2 : Z) : Z := wrap8 (abs8 (wrap8 (x1 - x2)) + abs8 (wrap8 (y1 - y2))).
 
 (* LegalMove: new state and verdict.  dest panics are propagated. *)
-Definition legal_move (v : variant) (st : fstate) (p : position) (m : rmove) : res (fstate * bool) :=
+Definition legal_move (fx : fixes) (v : variant) (st : fstate) (p : position) (m : rmove) : res (fstate * bool) :=
   let k := move p in
   match v with
   | Center => if 0 <? k then Ok (st, true) else Ok (st, is_centered p (mX m) (mY m))
@@ -63,11 +77,11 @@ Definition legal_move (v : variant) (st : fstate) (p : position) (m : rmove) : r
     else if k =? 2 then
       if negb (mT m =? 2)%N then Ok (st, false) else
       Ok ({| blackPlace := blackPlace st; blackTmp := blackTmp st; whitePlace := (mX m, mY m); whiteTmp := whiteTmp st |},
-          is_center_adjacent p (mX m) (mY m))
+          is_center_adjacent fx p (mX m) (mY m))
     else if k =? 3 then
       if negb (mT m =? 2)%N then Ok (st, false) else
       Ok ({| blackPlace := (mX m, mY m); blackTmp := blackTmp st; whitePlace := whitePlace st; whiteTmp := whiteTmp st |},
-          is_center_adjacent p (mX m) (mY m) && (distance (mX m) (mY m) (fst (whitePlace st)) (snd (whitePlace st)) =? 2))
+          is_center_adjacent fx p (mX m) (mY m) && (distance (mX m) (mY m) (fst (whitePlace st)) (snd (whitePlace st)) =? 2))
     else if k =? 4 then
       if negb (is_slide m) then Ok (st, false) else
       match dest m with
@@ -95,10 +109,43 @@ Definition adjacent_sq (p : position) (x y : Z) : res (Z * Z) :=
   else if (y + 1 <? psize p) && top_empty p x (y + 1) then Ok (x, y + 1)
   else Panic.
 
+(* adjacentExcept (repair fx_ds): adjacent, but never answers (ax, ay) *)
+Definition adjacent_ex (p : position) (x y ax ay : Z) : res (Z * Z) :=
+  let free (cx cy : Z) := top_empty p cx cy && negb ((cx =? ax) && (cy =? ay)) in
+  if (0 <? x) && free (x - 1) y then Ok (x - 1, y)
+  else if (0 <? y) && free x (y - 1) then Ok (x, y - 1)
+  else if (x + 1 <? psize p) && free (x + 1) y then Ok (x + 1, y)
+  else if (y + 1 <? psize p) && free x (y + 1) then Ok (x, y + 1)
+  else Panic.
+
 Definition mk (x y : Z) (t s : N) : rmove := {| mX := wrap8 x; mY := wrap8 y; mT := t; mS := s |}.
 
+(* Cairn.freeReply (repair fx_cb): first empty square, rows bottom-up, that the rule's check accepts *)
+Definition board_squares (p : position) : list (Z * Z) :=
+  let n := N.to_nat (size p) in
+  flat_map (fun y => map (fun x => (Z.of_nat x, Z.of_nat y)) (seq 0 n)) (seq 0 n).
+Definition free_reply (fx : fixes) (p : position) (wx wy : Z) : res (Z * Z) :=
+  match find (fun xy => top_empty p (fst xy) (snd xy) && is_center_adjacent fx p (fst xy) (snd xy) &&
+                        (distance (fst xy) (snd xy) wx wy =? 2)) (board_squares p) with
+  | Some xy => Ok xy
+  | None => Panic
+  end.
+
+(* Cairn.GetMove ply 4 (repair fx_cw): the first of Left, Right, Up, Down whose destination is centred and next to Black's stone *)
+Definition slide_to_center (p : position) (wx wy bx by_ : Z) : res rmove :=
+  let ok (t : N) : res bool :=
+    match dest (mk wx wy t 1) with
+    | Ok (dx, dy) => Ok (is_centered p dx dy && (distance dx dy bx by_ =? 1))
+    | Err => Err | Panic => Panic end in
+  let fix go (ts : list N) : res rmove :=
+    match ts with
+    | [] => Panic
+    | t :: r => match ok t with Ok true => Ok (mk wx wy t 1) | Ok false => go r | Err => Err | Panic => Panic end
+    end in
+  go [5; 6; 7; 8]%N.
+
 (* GetMove: None = not scripted at this ply *)
-Definition get_move (v : variant) (st : fstate) (p : position) : option (res rmove) :=
+Definition get_move (fx : fixes) (v : variant) (st : fstate) (p : position) : option (res rmove) :=
   let k := move p in
   match v with
   | Center => if 0 <? k then None else Some (Ok (mk (Z.quot (psize p) 2) (Z.quot (psize p) 2) 2 0))
@@ -110,7 +157,8 @@ Definition get_move (v : variant) (st : fstate) (p : position) : option (res rmo
             | Err => Err | Panic => Panic end)
     else if k =? 3 then
       let '(x, y) := blackPlace st in
-      Some (match adjacent_sq p x y with Ok (ex, ey) => Ok (mk ex ey 2 0) | Err => Err | Panic => Panic end)
+      Some (match (if fx_ds fx then adjacent_ex p x y (fst (whitePlace st)) (snd (whitePlace st)) else adjacent_sq p x y) with
+            | Ok (ex, ey) => Ok (mk ex ey 2 0) | Err => Err | Panic => Panic end)
     else if k =? 4 then
       let '(x, y) := whiteTmp st in
       Some (match dir_of x y (fst (whitePlace st)) (snd (whitePlace st)) with Ok t => Ok (mk x y t 1) | Err => Err | Panic => Panic end)
@@ -127,7 +175,11 @@ Definition get_move (v : variant) (st : fstate) (p : position) : option (res rmo
       let half := wrap8 (Z.quot (wrap8 (psize p)) 2) in
       let x := if wx <? half then wrap8 (wx + 1) else wrap8 (wx - 1) in
       let y := if wy <? half then wrap8 (wy + 1) else wrap8 (wy - 1) in
-      Some (Ok (mk x y 2 0))
+      if fx_cb fx && negb (top_empty p x y) then
+        Some (match free_reply fx p wx wy with Ok (x', y') => Ok (mk x' y' 2 0) | Err => Err | Panic => Panic end)
+      else Some (Ok (mk x y 2 0))
+    else if (k =? 4) && fx_cw fx then
+      Some (slide_to_center p (fst (whitePlace st)) (snd (whitePlace st)) (fst (blackPlace st)) (snd (blackPlace st)))
     else if k =? 4 then
       let '(wx, wy) := whitePlace st in
       let mid := Z.quot (psize p) 2 in
@@ -140,10 +192,14 @@ Definition get_move (v : variant) (st : fstate) (p : position) : option (res rmo
     else None
   end.
 
-(* ---- the enumeration of C20's domain ---- *)
+(* ---- the enumeration of C20's domain ----
+   variant x size x bot colour x every move, at the plies the bot does not script, that is generated by
+   AllMoves, accepted by the variant's LegalMove and legal on the board (Position.Move as repaired:
+   with the bounds check). *)
 Section E.
 Variable basis : list N.
-Definition mv1 := move_prealloc (hash_sq basis) false.
+(* the hash plays no part in C20 (nothing here reads it): Position.Move with a constant per-square hash *)
+Definition mv1 := move_prealloc (fun _ _ _ => 0%N) true.
 
 Inductive outcome := Fine | Illegal | SelfReject | Crash.
 Record tally := { nodes : N; scripted : N; illegal : N; selfrej : N; crash : N }.
@@ -151,43 +207,104 @@ Definition t0 := {| nodes := 0; scripted := 0; illegal := 0; selfrej := 0; crash
 Definition tadd (a b : tally) := {| nodes := nodes a + nodes b; scripted := scripted a + scripted b; illegal := illegal a + illegal b;
                                     selfrej := selfrej a + selfrej b; crash := crash a + crash b |}%N.
 
-Fixpoint walk (fuel : nat) (v : variant) (bot_white : bool) (max_ply : Z) (st : fstate) (p : position) : tally :=
+(* the accepted continuations at an unscripted node, in AllMoves order *)
+Definition children (fx : fixes) (v : variant) (st : fstate) (p : position) : list (rmove * fstate * position) :=
+  flat_map (fun m => match legal_move fx v st p m with
+                     | Ok (st', true) => match mv1 p m with Ok q => [(m, st', q)] | _ => [] end
+                     | _ => [] end) (all_moves p).
+
+(* what the script does at a node where the bot is to move: None = nothing scripted *)
+Inductive scripted_step :=
+| SNone
+| SGetCrash                                               (* GetMove panicked *)
+| SStep (m : rmove) (o : outcome) (next : option (fstate * position)).
+Definition script_step (fx : fixes) (v : variant) (st : fstate) (p : position) : scripted_step :=
+  match get_move fx v st p with
+  | None => SNone
+  | Some (Ok m) =>
+    match mv1 p m with
+    | Ok q =>
+      match legal_move fx v st p m with
+      | Ok (st', true) => SStep m Fine (Some (st', q))
+      | Ok (_, false) => SStep m SelfReject None
+      | _ => SStep m Crash None
+      end
+    | _ => SStep m Illegal None
+    end
+  | Some _ => SGetCrash
+  end.
+
+Definition stops (max_ply : Z) (p : position) : bool :=
+  if max_ply <=? move p then true else match game_over p with Some (true, _) => true | _ => false end.
+
+Fixpoint walk (fuel : nat) (fx : fixes) (v : variant) (bot_white : bool) (max_ply : Z) (st : fstate) (p : position) : tally :=
   let here := {| nodes := 1; scripted := 0; illegal := 0; selfrej := 0; crash := 0 |}%N in
   match fuel with
   | O => here
   | S f =>
-    if max_ply <=? move p then here else
-    match game_over p with
-    | Some (true, _) => here
-    | _ =>
-      let opp_moves (_ : unit) :=
-        fold_left (fun acc m =>
-            match legal_move v st p m with
-            | Ok (st', true) => match mv1 p m with Ok q => tadd acc (walk f v bot_white max_ply st' q) | _ => acc end
-            | _ => acc
-            end) (all_moves p) here in
-      if Bool.eqb (to_move_white p) bot_white then
-        match get_move v st p with
-        | None => opp_moves tt
-        | Some (Ok m) =>
-          match mv1 p m with
-          | Ok q =>
-            match legal_move v st p m with
-            | Ok (st', true) => tadd {| nodes := 1; scripted := 1; illegal := 0; selfrej := 0; crash := 0 |}%N (walk f v bot_white max_ply st' q)
-            | Ok (_, false) => {| nodes := 1; scripted := 1; illegal := 0; selfrej := 1; crash := 0 |}%N
-            | _ => {| nodes := 1; scripted := 1; illegal := 0; selfrej := 0; crash := 1 |}%N
-            end
-          | _ => {| nodes := 1; scripted := 1; illegal := 1; selfrej := 0; crash := 0 |}%N
-          end
-        | Some _ => {| nodes := 1; scripted := 0; illegal := 0; selfrej := 0; crash := 1 |}%N
-        end
-      else opp_moves tt
-    end
+    if stops max_ply p then here else
+    let opp_moves (_ : unit) :=
+      fold_left (fun acc c => tadd acc (walk f fx v bot_white max_ply (snd (fst c)) (snd c))) (children fx v st p) here in
+    if Bool.eqb (to_move_white p) bot_white then
+      match script_step fx v st p with
+      | SNone => opp_moves tt
+      | SGetCrash => {| nodes := 1; scripted := 0; illegal := 0; selfrej := 0; crash := 1 |}%N
+      | SStep _ Fine (Some (st', q)) => tadd {| nodes := 1; scripted := 1; illegal := 0; selfrej := 0; crash := 0 |}%N (walk f fx v bot_white max_ply st' q)
+      | SStep _ Illegal _ => {| nodes := 1; scripted := 1; illegal := 1; selfrej := 0; crash := 0 |}%N
+      | SStep _ SelfReject _ => {| nodes := 1; scripted := 1; illegal := 0; selfrej := 1; crash := 0 |}%N
+      | SStep _ _ _ => {| nodes := 1; scripted := 1; illegal := 0; selfrej := 0; crash := 1 |}%N
+      end
+    else opp_moves tt
   end.
 
-Definition run (v : variant) (sz : N) (bot_white : bool) : tally :=
+(* the same traversal, as the pre-order list of node records (what the Go driver prints per sub-tree) *)
+Inductive ev := ELeaf | EOpp (k : nat) | EChild (m : rmove) | EScript (m : rmove) (o : outcome) | EGetCrash.
+Fixpoint walk_tr (fuel : nat) (fx : fixes) (v : variant) (bot_white : bool) (max_ply : Z) (st : fstate) (p : position) : list ev :=
+  match fuel with
+  | O => [ELeaf]
+  | S f =>
+    if stops max_ply p then [ELeaf] else
+    let opp_moves (_ : unit) :=
+      let cs := children fx v st p in
+      EOpp (length cs) :: flat_map (fun c => EChild (fst (fst c)) :: walk_tr f fx v bot_white max_ply (snd (fst c)) (snd c)) cs in
+    if Bool.eqb (to_move_white p) bot_white then
+      match script_step fx v st p with
+      | SNone => opp_moves tt
+      | SGetCrash => [EGetCrash]
+      | SStep m Fine (Some (st', q)) => EScript m Fine :: walk_tr f fx v bot_white max_ply st' q
+      | SStep m o _ => [EScript m o]
+      end
+    else opp_moves tt
+  end.
+
+(* tak.New(Config{Size, BlackWinsTies: true}) (Friendly.Config with an FPA rule) *)
+Definition root (sz : N) : position :=
   let p0 := from_squares basis sz (repeat (repeat [] (N.to_nat sz)) (N.to_nat sz)) 0 in
-  walk 8 v bot_white (match v with Center => 1 | _ => 6 end) fstate0 {| size := size p0; black_wins_ties := true;
+  {| size := size p0; black_wins_ties := true;
      whiteStones := whiteStones p0; whiteCaps := whiteCaps p0; blackStones := blackStones p0; blackCaps := blackCaps p0;
      move := 0; White := 0; Black := 0; Standing := 0; Caps := 0; Height := Height p0; Stacks := Stacks p0; hash := hash p0 |}.
+Definition max_ply_of (v : variant) : Z := match v with Center => 1 | _ => 6 end.
+
+Definition run (fx : fixes) (v : variant) (sz : N) (bot_white : bool) : tally :=
+  walk 8 fx v bot_white (max_ply_of v) fstate0 (root sz).
+
+(* a sub-tree: replay accepted moves from the root, then walk *)
+Fixpoint replay (fx : fixes) (v : variant) (st : fstate) (p : position) (ms : list rmove) : option (fstate * position) :=
+  match ms with
+  | [] => Some (st, p)
+  | m :: r => match legal_move fx v st p m with
+              | Ok (st', true) => match mv1 p m with Ok q => replay fx v st' q r | _ => None end
+              | _ => None end
+  end.
+Definition run_from (fx : fixes) (v : variant) (sz : N) (bot_white : bool) (ms : list rmove) : option (tally * list ev) :=
+  match replay fx v fstate0 (root sz) ms with
+  | Some (st, p) => Some (walk 8 fx v bot_white (max_ply_of v) st p, walk_tr 8 fx v bot_white (max_ply_of v) st p)
+  | None => None
+  end.
+(* number of accepted two-ply prefixes (nothing is scripted before ply 2 in DoubleStack and Cairn) *)
+Definition prefix_count (fx : fixes) (v : variant) (sz : N) : nat :=
+  match v with
+  | Center => 0
+  | _ => length (flat_map (fun c => children fx v (snd (fst c)) (snd c)) (children fx v fstate0 (root sz)))
+  end.
 End E.
